@@ -194,6 +194,17 @@ async def drive_h11(cfg: dict, ops) -> Tuple[List[dict], List[dict], dict]:
             tap.events.clear()
             return evs
 
+        def ws_upgrade_tail(was_ws: bool) -> None:
+            """the reader took a WebSocket handshake during this op (in a read, or in a parked reader that a send / close released and
+            that went on with a pipelined request): the untapped H11WSConnection replays h11's trailing data, then answers NEED_DATA"""
+            if not was_ws and not isinstance(proto.connection, h11.Connection):
+                trailing = proto.connection.h11_connection.trailing_data[0]
+                if trailing:
+                    model_ops.append({"op": "ev", "k": "wsData", "data": b2s(trailing), "events": list(wtap.yielded)})
+                    obs.append(None)
+                model_ops.append({"op": "ev", "k": "needData"})
+                obs.append(None)
+
         view: Dict[str, Any] = {"objs": 0, "puts": {}, "spawned": [], "parked": False, "up_closed": False, "steps": 0, "kinds": {}}
         static = list(ops) if isinstance(ops, list) else None
 
@@ -256,13 +267,7 @@ async def drive_h11(cfg: dict, ops) -> Tuple[List[dict], List[dict], dict]:
                     model_ops.append({"op": "ev", **e})
                     obs.append(None)
                 # upgrade to websocket during this op: H11WSConnection replays trailing data itself
-                if not was_ws and not isinstance(proto.connection, h11.Connection):
-                    trailing = proto.connection.h11_connection.trailing_data[0]
-                    if trailing:
-                        model_ops.append({"op": "ev", "k": "wsData", "data": b2s(trailing), "events": list(wtap.yielded)})
-                        obs.append(None)
-                    model_ops.append({"op": "ev", "k": "needData"})
-                    obs.append(None)
+                ws_upgrade_tail(was_ws)
                 obs[-1] = snap()
                 if reader_task.done() and reader_task.exception() is not None:
                     obs[-1]["handler_exception"] = type(reader_task.exception()).__name__
@@ -273,6 +278,7 @@ async def drive_h11(cfg: dict, ops) -> Tuple[List[dict], List[dict], dict]:
                 stream = objs[oid]
                 err = None
                 wtap.yielded.clear()
+                was_ws = not isinstance(proto.connection, h11.Connection)
                 try:
                     await stream.app_send(None if msg is None else dict(msg))
                 except Exception as e:  # noqa
@@ -289,6 +295,7 @@ async def drive_h11(cfg: dict, ops) -> Tuple[List[dict], List[dict], dict]:
                     for e in levs:
                         model_ops.append({"op": "ev", **e})
                         obs.append(None)
+                    ws_upgrade_tail(was_ws)
                     o2 = snap()
                     obs[-1] = o2
                 else:
@@ -303,6 +310,7 @@ async def drive_h11(cfg: dict, ops) -> Tuple[List[dict], List[dict], dict]:
                             if n == "sec-websocket-extensions":
                                 lib["ext"] = v
             elif "closed" in op:
+                was_ws = not isinstance(proto.connection, h11.Connection)
                 await proto.handle(Closed())
                 await settle()
                 model_ops.append({"op": "closed"})
@@ -312,6 +320,7 @@ async def drive_h11(cfg: dict, ops) -> Tuple[List[dict], List[dict], dict]:
                     model_ops.append({"op": "ev", **e})
                     obs.append(None)
                 if levs:
+                    ws_upgrade_tail(was_ws)
                     obs[-1] = snap()
             elif "terminate" in op:
                 await ctx.terminated.set()
@@ -322,6 +331,7 @@ async def drive_h11(cfg: dict, ops) -> Tuple[List[dict], List[dict], dict]:
                 if not spawned:
                     continue
                 func, args = spawned.pop(0)
+                was_ws = not isinstance(proto.connection, h11.Connection)
                 await func(*args)
                 await settle()
                 model_ops.append({"op": "deferredClose"})
@@ -331,6 +341,7 @@ async def drive_h11(cfg: dict, ops) -> Tuple[List[dict], List[dict], dict]:
                     model_ops.append({"op": "ev", **e})
                     obs.append(None)
                 if levs:
+                    ws_upgrade_tail(was_ws)
                     obs[-1] = snap()
         if reader_task is not None and not reader_task.done():
             reader_task.cancel()
